@@ -51,4 +51,6 @@ def bodies(seed=0, big=65536):
     rnd = random.Random(seed)
     return [('empty', b''), ('one', b'\x42'), ('b7', b'1234567'), ('b8', b'12345678'), ('b9', b'123456789'), ('b15', bytes(range(15))),
             ('b16', bytes(range(16))), ('b17', bytes(range(17))), ('ascii', b'The quick brown fox\njumps over the lazy dog\n'),
-            ('all-octets', bytes(range(256))), ('incompressible', bytes(rnd.getrandbits(8) for _ in range(big)))]
+            ('all-octets', bytes(range(256))), ('incompressible', bytes(rnd.getrandbits(8) for _ in range(big))),
+            # compresses by far more than 1000:1 (what a decompressor is handed is tiny, what it must hand back is not)
+            ('zeros', bytes(8 * big)), ('regular', (b'2026-09-25 00:00:00 INFO request served in 12 ms\n' * (8 * big // 50)))]
